@@ -4271,7 +4271,7 @@ func (p *Parser) parseDictionaryLifetime() *ast.DictionaryLifetime {
 	p.nextToken() // skip (
 
 	// Parse MIN and MAX or just a single value
-	for !p.currentIs(token.EOF) && !p.currentIs(token.RPAREN) {
+	for !p.currentIs(token.EOF) && !p.currentIs(token.RPAREN) && !p.currentIs(token.SEMICOLON) {
 		if p.currentIs(token.IDENT) {
 			upper := strings.ToUpper(p.current.Value)
 			if upper == "MIN" {
